@@ -2277,3 +2277,18 @@ PROPS["C12"]["level_text"] += (" Undelimited scalars and error offsets (Props/C1
     "call yields None for any number of calls; the only other error item is the scalar's TrailingCharacters, ending strictly later; "
     "c12_error_offset_first_byte_of_code - the first alternative for every code other than TrailingCharacters. Kernel-checked traces "
     "(item kind, byte_offset(), failed flag per call): truex, 1x, nullnull, ' \\n falsey', 1.5ex, and the controls 1 2 and true].")
+
+PROPS["C19"]["partial"] = [p for p in PROPS["C19"]["partial"] if not p.startswith("c19_nested_capture / c19_top_complete / c19_field_capture on byte sources take")] + [
+    "c19_top_complete / c19_nested_capture / c19_nested_capture_map / c19_field_capture on byte sources take the UTF-8 validity of the captured "
+    "texts (and decoded keys) as hypothesis (it is what from_utf8 checks); for an input that is valid UTF-8 as a whole the hypothesis is "
+    "discharged (Props/C19Utf8.lean: c19_top_complete_valid_input, c19_nested_capture_valid_input, c19_nested_complete_valid_input, "
+    "c19_nested_capture_map_valid_input, c19_field_capture_valid_input - every captured text and key literal is cut out of the input at "
+    "ASCII bytes). For a byte input that is NOT valid UTF-8 as a whole (e.g. an ill-formed string inside the skipped value of an unknown "
+    "struct field) the original iff statements, with the per-capture hypothesis, remain the statement"]
+PROPS["C19"]["lean_targets"] = PROPS["C19"]["lean_targets"][:-1] + ["SJ.Props.C19Utf8"] + PROPS["C19"]["lean_targets"][-1:]
+PROPS["C19"]["level_text"] += (" UTF-8 of the whole input (Props/C19Utf8.lean over Proofs/C19Utf8.lean, Proofs/C19Utf8Map.lean): "
+    "c19_top_complete_valid_input, c19_nested_capture_valid_input (+ c19_nested_complete_valid_input), c19_nested_capture_map_valid_input and "
+    "c19_field_capture_valid_input restate the capture theorems for byte inputs that are valid UTF-8 as a whole: the conditions 'captured text "
+    "valid UTF-8' / 'decoded key valid UTF-8' disappear from the right-hand sides (a grammar value and a key literal start with an ASCII byte "
+    "and are followed by whitespace, a structural byte or the end of the input, so they are cut out at character boundaries - validUtf8_mid; "
+    "escape-decoding a valid literal gives valid UTF-8 - decodeItems_utf8).")
